@@ -136,6 +136,10 @@ def lookup_class(ns, name):
 _OPEN = []
 
 
+class _SlotsUnset(object):
+    __slots__ = ("never_assigned",)
+
+
 def _unserialisable(kind):
     if kind == "socket":
         o = socket.socket(socket.AF_INET, socket.SOCK_STREAM)
@@ -145,6 +149,8 @@ def _unserialisable(kind):
         return lambda: 1
     if kind == "object":
         return object()
+    if kind == "slots-unset":
+        return _SlotsUnset()        # serialising it fails with AttributeError (slot never assigned), not TypeError/ValueError
     raise KeyError(kind)
 
 
@@ -850,7 +856,7 @@ def special_specs():
 
 def unserialisable_specs():
     out = []
-    for what in ("socket", "lambda", "object"):
+    for what in ("socket", "lambda", "object", "slots-unset"):
         for where in ("attr", "arg"):
             out.append({"ns": "builtins", "cls": "ValueError", "args": ["the original message"], "attrs": {"x_fine": 1},
                         "special": {"unser": what, "where": where}})
@@ -916,11 +922,11 @@ def case_strategy(draw, servertype, ser):
     kind = draw(st.sampled_from(KINDS))
     k = draw(st.integers(0, 3))
     detailed = draw(st.integers(0, 3)) == 3
-    unser = draw(st.integers(0, 11))
+    unser = draw(st.integers(0, 13))
     spec = draw(spec_strategy(with_local=True))
-    if unser < 3 and spec["special"] is None:
+    if unser < 4 and spec["special"] is None:
         # the "cannot be serialised" family on a random class: offending value as attribute
-        spec["special"] = {"unser": ["socket", "lambda", "object"][unser], "where": "attr"}
+        spec["special"] = {"unser": ["socket", "lambda", "object", "slots-unset"][unser], "where": "attr"}
     case = {"level": "live", "servertype": servertype, "ser": ser, "kind": kind,
             "k": k if kind in ("batch-middle", "batch-last", "stream") else 0, "spec": spec}
     if detailed:
